@@ -62,7 +62,16 @@ func world() (*simworld.World, error) {
 	})
 }
 
-func slow(o string) bool { return o == "silent" || o == "dies" }
+func slow(o string) bool { return o == "silent" || o == "dies" || o == "ok-late" }
+
+// "ok-late": the task acknowledges without error, late but in time: 105 s after a CONFIGURE (whose response timeout is 120 s),
+// 60 s after any other command (90 s). For the verdict it counts as "ok".
+func norm(o string) string {
+	if o == "ok-late" {
+		return "ok"
+	}
+	return o
+}
 
 func run(c Case) (res vh.Result) {
 	w, err := world()
@@ -142,6 +151,11 @@ func run(c Case) (res vh.Result) {
 			return simworld.Reply{Error: "simulated: task did not reach the expected state", State: cmd.Source, Impostor: true, Delay: 150 * time.Millisecond}
 		case "silent":
 			return simworld.Reply{NoReply: true}
+		case "ok-late":
+			if cmd.Event == "CONFIGURE" {
+				return simworld.Reply{Delay: 105 * time.Second}
+			}
+			return simworld.Reply{Delay: 60 * time.Second}
 		case "dies":
 			id := t.ID
 			return simworld.Reply{NoReply: true, Then: func() {
@@ -157,7 +171,7 @@ func run(c Case) (res vh.Result) {
 	defer func() { res.History = map[string]interface{}{"workflow": sb.String(), "steps": hist, "world_log_tail": w.LogLines(160)} }()
 	critOK := func(get func(i int) string, alive []bool) bool {
 		for i, t := range c.Tasks {
-			if t.Critical && alive[i] && get(i) != "ok" {
+			if t.Critical && alive[i] && norm(get(i)) != "ok" {
 				return false
 			}
 			if t.Critical && !alive[i] {
@@ -411,7 +425,7 @@ func faults(c Case) string {
 
 func allCriticalOK(c Case) bool {
 	for _, t := range c.Tasks {
-		if t.Critical && (t.Deploy != "ok" || t.Configure != "ok") {
+		if t.Critical && (t.Deploy != "ok" || norm(t.Configure) != "ok") {
 			return false
 		}
 	}
@@ -482,7 +496,7 @@ func slowShard() bool { return os.Getenv("VERIF_C02_SLOW") != "" }
 
 func genOutcome(t *rapid.T, label string) string {
 	if slowShard() {
-		return rapid.SampledFrom([]string{"ok", "ok", "silent", "dies", "err-src"}).Draw(t, label)
+		return rapid.SampledFrom([]string{"ok", "ok", "silent", "dies", "err-src", "ok-late"}).Draw(t, label)
 	}
 	// "undeliverable" is not drawn per task: a real master accepts MESSAGE calls (202) and drops what it cannot deliver, which the
 	// core sees as silence; an HTTP-level refusal disconnects the whole framework instead (see DESIGN.md, C02)
@@ -610,4 +624,12 @@ func TestFixedSlow(t *testing.T) {
 	defer simworld.Discard()
 	vh.Fixed(t, prop, "critical-silent-others-answer-start", Case{Tasks: []TaskSpec{{0, true, "direct", "ok", "ok"}, {1, true, "direct", "ok", "ok"}, {0, false, "direct", "ok", "ok"}},
 		Steps: []Step{{"START_ACTIVITY", []string{"silent", "ok", "ok"}}}}, vh.Confirmed(run))
+}
+
+// TestFixedLate: critical tasks that acknowledge late but in time - 105 s after CONFIGURE (response timeout 120 s), 60 s
+// after START (90 s): creation and transition succeed. Runs as a shard of its own (about 170 s of waiting).
+func TestFixedLate(t *testing.T) {
+	defer simworld.Discard()
+	vh.Fixed(t, prop, "critical-acknowledges-late-but-in-time-configure-and-start", Case{Tasks: []TaskSpec{{0, true, "direct", "ok", "ok-late"}, {1, true, "direct", "ok", "ok"}},
+		Steps: []Step{{"START_ACTIVITY", []string{"ok", "ok-late"}}}}, vh.Confirmed(run))
 }
